@@ -42,6 +42,7 @@ import (
 	"google.golang.org/protobuf/proto"
 	"google.golang.org/protobuf/types/known/timestamppb"
 
+	"github.com/drand/drand/v2/common"
 	"github.com/drand/drand/v2/crypto"
 	"github.com/drand/drand/v2/internal/vhook"
 	"github.com/drand/drand/v2/internal/vlib"
@@ -83,6 +84,7 @@ func (t *vdmeTrace) Emit(ev string, fields vlib.E) {
 
 type vdmeCall struct {
 	EP, ID, Hash, GM, Body string // the request class of spec/DaemonEndpoints.tla
+	Ver                    string // version class announced in the metadata: none | compatible | incompatible ("" = none)
 	Name                   string // the concrete variant
 	Tick                   bool   // the handler may wait for the next round: time keeps running during the call
 	Msg                    func(w *vdmWorld) proto.Message
@@ -131,9 +133,38 @@ func vdmeMetas() []vdmeMeta {
 		{"oversizeId", "unknown", "none", func(w *vdmWorld) *drand.Metadata {
 			return &drand.Metadata{BeaconID: strings.Repeat("x", 1<<16)}
 		}},
-		{"badVersion", "default", "none", func(w *vdmWorld) *drand.Metadata {
-			return &drand.Metadata{BeaconID: "default", NodeVersion: &drand.NodeVersion{Major: 9999}}
-		}},
+	}
+}
+
+// vdmeVer: what a request announces as node version (metadata.node_version), with every spelling of the
+// optional prerelease tag; class = what the numbers make it for this build (same major, minor within one).
+type vdmeVer struct {
+	name, class string
+	build       func() *drand.NodeVersion
+}
+
+func vdmeVers() []vdmeVer {
+	sp := func(s string) *string { return &s }
+	app := func(pre *string) func() *drand.NodeVersion {
+		return func() *drand.NodeVersion { v := common.GetAppVersion().ToProto(); v.Prerelease = pre; return v }
+	}
+	raw := func(ma, mi, pa uint32, pre *string) func() *drand.NodeVersion {
+		return func() *drand.NodeVersion { return &drand.NodeVersion{Major: ma, Minor: mi, Patch: pa, Prerelease: pre} }
+	}
+	app0 := common.GetAppVersion()
+	return []vdmeVer{
+		{"same", "compatible", app(nil)},
+		{"same-pre-empty", "compatible", app(sp(""))},
+		{"same-pre-dash", "compatible", app(sp("-"))},
+		{"same-pre-tag", "compatible", app(sp("pre"))},
+		{"same-pre-dashtag", "compatible", app(sp("-pre"))},
+		{"same-pre-oversize", "compatible", app(sp(strings.Repeat("p", 1<<16)))},
+		{"next-minor", "compatible", raw(app0.Major, app0.Minor+1, 0, nil)},
+		{"zero", "incompatible", raw(0, 0, 0, nil)},
+		{"zero-pre-empty", "incompatible", raw(0, 0, 0, sp(""))},
+		{"huge", "incompatible", raw(math.MaxUint32, math.MaxUint32, math.MaxUint32, nil)},
+		{"huge-pre-dashtag", "incompatible", raw(math.MaxUint32, math.MaxUint32, math.MaxUint32, sp("-pre"))},
+		{"other-major-pre-dash", "incompatible", raw(app0.Major+7, 0, 0, sp("-"))},
 	}
 }
 
@@ -223,6 +254,18 @@ func vdmeBodies(ep string) []vdmeBody {
 			mk("emptyAddress", func(w *vdmWorld) []*drand.Address { return []*drand.Address{{}, {Address: ""}} }),
 			mk("deadPeer", func(w *vdmWorld) []*drand.Address { return []*drand.Address{{Address: "127.0.0.1:1"}} }),
 			mk("garbageAddress", func(w *vdmWorld) []*drand.Address { return []*drand.Address{{Address: strings.Repeat("%", 300)}} }),
+			mk("sameDeadTwice", func(w *vdmWorld) []*drand.Address { return []*drand.Address{{Address: "127.0.0.1:1"}, {Address: "127.0.0.1:1"}} }),
+			mk("sameSelfTwice", func(w *vdmWorld) []*drand.Address { return []*drand.Address{{Address: w.addr}, {Address: w.addr}} }),
+			mk("mixedRepeats", func(w *vdmWorld) []*drand.Address {
+				return []*drand.Address{{Address: "127.0.0.1:1"}, {}, {Address: w.addr}, {Address: "127.0.0.1:2"}, {Address: "127.0.0.1:1"}, {Address: w.addr}}
+			}),
+			mk("manyDead", func(w *vdmWorld) []*drand.Address {
+				var l []*drand.Address
+				for i := 0; i < 12; i++ {
+					l = append(l, &drand.Address{Address: fmt.Sprintf("127.0.0.1:%d", 1+i%6)})
+				}
+				return l
+			}),
 		}
 	}
 	return nil
@@ -415,6 +458,16 @@ func vdmeShapes(quick bool) []vdmeCall {
 			}
 		}
 	}
+	for _, ep := range []string{"PartialBeacon", "PublicRand", "PublicRandStream", "SyncChain", "ChainInfo", "GetIdentity", "Status"} {
+		b := vdmeBodies(ep)[0]
+		for _, v := range vdmeVers() {
+			v := v
+			out = append(out, vdmeCall{EP: ep, ID: "default", Hash: "none", GM: "-", Body: b.class, Ver: v.class, Name: "version:" + v.name + "/" + b.name,
+				Msg: func(w *vdmWorld) proto.Message {
+					return b.build(w, &drand.Metadata{BeaconID: "default", NodeVersion: v.build()})
+				}})
+		}
+	}
 	out = append(out,
 		vdmeCall{EP: "ListBeaconIDs", ID: "none", Hash: "none", GM: "-", Body: "any", Name: "plain", Msg: func(w *vdmWorld) proto.Message { return &drand.ListBeaconIDsRequest{} }},
 		vdmeCall{EP: "Metrics", ID: "none", Hash: "none", GM: "-", Body: "any", Name: "plain", Msg: func(w *vdmWorld) proto.Message { return &drand.MetricsRequest{} }},
@@ -550,6 +603,9 @@ type vdmeResult struct {
 	code string
 	on   string // for blocked calls: blocking primitive and the drand function that waits
 	slow bool   // returned, but only after the deadline (the goroutine was not waiting for a lock)
+	// where a panic was caught: "handler" = inside the position of the recovery interceptor (contained on the real
+	// listener), "interceptor" = in the node-version validators, which the listener chains outside of it
+	stage string
 }
 
 var vdmeGoroutineRe = regexp.MustCompile(`^goroutine (\d+) \[([^\],]+)`)
@@ -601,16 +657,45 @@ func vdmeBlockedOn(stack, g string) string {
 	return "?"
 }
 
+// vdmeOnKind: what the goroutine dump says about a call that did not return.  Only a handler that is PARKED
+// (mutex, rwmutex, chan, parked) counts as a wedge; "other" = running / not found: no verdict.
 func vdmeOnKind(r vdmeResult) string {
+	reason := r.on
+	if i := strings.Index(reason, "@"); i >= 0 {
+		reason = reason[:i]
+	}
 	switch {
 	case r.res != "blocked":
 		return "-"
-	case strings.HasPrefix(r.on, "sync.Mutex"):
+	case strings.HasPrefix(reason, "sync.Mutex"):
 		return "mutex"
-	case strings.HasPrefix(r.on, "sync.RWMutex"):
+	case strings.HasPrefix(reason, "sync.RWMutex"):
 		return "rwmutex"
+	case strings.HasPrefix(reason, "chan ") || reason == "select" || reason == "select (no cases)" ||
+		strings.HasPrefix(reason, "sync.Cond") || strings.HasPrefix(reason, "sync.WaitGroup") || strings.HasPrefix(reason, "semacquire"):
+		return "chan"
+	case reason == "sleep" || reason == "IO wait":
+		return "parked"
 	}
 	return "other"
+}
+
+// vdmeServerParked: for a request that got no answer through the listener, the serving goroutine of the gRPC /
+// HTTP server that is parked inside drand code ("<wait reason>@<function>"), or "?" when the dump shows none.
+func vdmeServerParked(dump string) string {
+	for _, blk := range strings.Split(dump, "\n\n") {
+		if !strings.Contains(blk, "grpc.(*Server).handleStream") && !strings.Contains(blk, "net/http.(*conn).serve") {
+			continue
+		}
+		m := vdmeGoroutineRe.FindStringSubmatch(strings.Split(blk, "\n")[0])
+		if m == nil || m[2] == "running" || m[2] == "runnable" || m[2] == "IO wait" {
+			continue
+		}
+		if fn := vdmeTopFrame(blk); fn != "?" {
+			return m[2] + "@" + fn
+		}
+	}
+	return "?"
 }
 
 func vdmeClassify(err error) (string, string) {
@@ -639,45 +724,109 @@ func (w *vdmWorld) vdmeDirect(c vdmeCall, d time.Duration) vdmeResult {
 	r := vlib.Call(d, func() {
 		defer close(done)
 		gid <- vdmeGoroutineID()
+		var err error
+		// Every gRPC request first passes the daemon's node-version validators, exactly the functions the listener
+		// installs.  The listener chains them BEFORE grpcrecovery: the handler they are given here recovers like
+		// grpcrecovery does (panic -> codes.Internal), a panic of the validators themselves reaches the outer recover.
+		stage := ""
+		contain := func(p any) error {
+			stage = "handler"
+			out.on = vdmeTopFrame(string(debug.Stack()))
+			out.err = vdmErrStr(fmt.Errorf("%v", p))
+			return status.Errorf(codes.Internal, "%v", p)
+		}
+		unary := func(method string, h func(ctx context.Context) error) error {
+			_, e := w.dd.NodeVersionValidator(ctx, msg, &grpc.UnaryServerInfo{Server: w.dd, FullMethod: method},
+				func(ctx context.Context, _ interface{}) (_ interface{}, e error) {
+					defer func() {
+						if p := recover(); p != nil {
+							e = contain(p)
+						}
+					}()
+					return nil, h(ctx)
+				})
+			return e
+		}
+		stream := func(method string, ss grpc.ServerStream, h func() error) error {
+			return w.dd.NodeVersionStreamValidator(w.dd, ss, &grpc.StreamServerInfo{FullMethod: method, IsServerStream: true},
+				func(_ interface{}, _ grpc.ServerStream) (e error) {
+					defer func() {
+						if p := recover(); p != nil {
+							e = contain(p)
+						}
+					}()
+					return h()
+				})
+		}
 		defer func() {
 			if p := recover(); p != nil {
-				out = vdmeResult{res: "panic", err: vdmErrStr(fmt.Errorf("%v", p)), on: vdmeTopFrame(string(debug.Stack()))}
+				stage = "handler" // (HTTP: net/http recovers a panicking handler per connection)
+				if c.Msg != nil {
+					stage = "interceptor"
+				}
+				out = vdmeResult{res: "panic", err: vdmErrStr(fmt.Errorf("%v", p)), on: vdmeTopFrame(string(debug.Stack())), stage: stage}
 			}
 		}()
-		var err error
 		switch c.EP {
 		case "PartialBeacon":
-			_, err = w.dd.PartialBeacon(ctx, msg.(*drand.PartialBeaconPacket))
+			err = unary("/drand.Protocol/PartialBeacon", func(ctx context.Context) error {
+				_, e := w.dd.PartialBeacon(ctx, msg.(*drand.PartialBeaconPacket))
+				return e
+			})
 		case "PublicRand":
-			_, err = w.dd.PublicRand(ctx, msg.(*drand.PublicRandRequest))
+			err = unary("/drand.Public/PublicRand", func(ctx context.Context) error {
+				_, e := w.dd.PublicRand(ctx, msg.(*drand.PublicRandRequest))
+				return e
+			})
 		case "PublicRandStream":
 			s := &vdmPubStream{vdmStream: newVdmStream()}
 			go func() { time.Sleep(300 * time.Millisecond); s.cancel() }()
-			err = w.dd.PublicRandStream(msg.(*drand.PublicRandRequest), s)
+			err = stream("/drand.Public/PublicRandStream", s, func() error { return w.dd.PublicRandStream(msg.(*drand.PublicRandRequest), s) })
 			if len(s.gotPub) > 0 {
 				err = nil
 			}
 		case "SyncChain":
 			s := newVdmStream()
 			go func() { time.Sleep(300 * time.Millisecond); s.cancel() }()
-			err = w.dd.SyncChain(msg.(*drand.SyncRequest), s)
+			err = stream("/drand.Protocol/SyncChain", s, func() error { return w.dd.SyncChain(msg.(*drand.SyncRequest), s) })
 			if len(s.got) > 0 {
 				err = nil
 			}
 		case "ChainInfo":
-			_, err = w.dd.ChainInfo(ctx, msg.(*drand.ChainInfoRequest))
+			err = unary("/drand.Public/ChainInfo", func(ctx context.Context) error {
+				_, e := w.dd.ChainInfo(ctx, msg.(*drand.ChainInfoRequest))
+				return e
+			})
 		case "GetIdentity":
-			_, err = w.dd.GetIdentity(ctx, msg.(*drand.IdentityRequest))
+			err = unary("/drand.Protocol/GetIdentity", func(ctx context.Context) error {
+				_, e := w.dd.GetIdentity(ctx, msg.(*drand.IdentityRequest))
+				return e
+			})
 		case "Status":
-			_, err = w.dd.Status(ctx, msg.(*drand.StatusRequest))
+			err = unary("/drand.Protocol/Status", func(ctx context.Context) error {
+				_, e := w.dd.Status(ctx, msg.(*drand.StatusRequest))
+				return e
+			})
 		case "ListBeaconIDs":
-			_, err = w.dd.ListBeaconIDs(ctx, msg.(*drand.ListBeaconIDsRequest))
+			err = unary("/drand.Public/ListBeaconIDs", func(ctx context.Context) error {
+				_, e := w.dd.ListBeaconIDs(ctx, msg.(*drand.ListBeaconIDsRequest))
+				return e
+			})
 		case "Metrics":
-			_, err = w.dd.Metrics(ctx, msg.(*drand.MetricsRequest))
+			err = unary("/drand.Metrics/Metrics", func(ctx context.Context) error {
+				_, e := w.dd.Metrics(ctx, msg.(*drand.MetricsRequest))
+				return e
+			})
 		case "DKGPacket":
-			_, err = w.dd.Packet(ctx, msg.(*pdkg.GossipPacket))
+			err = unary("/dkg.DKGPublic/Packet", func(ctx context.Context) error {
+				_, e := w.dd.Packet(ctx, msg.(*pdkg.GossipPacket))
+				return e
+			})
 		case "BroadcastDKG":
-			_, err = w.dd.BroadcastDKG(ctx, msg.(*pdkg.DKGPacket))
+			err = unary("/dkg.DKGPublic/BroadcastDKG", func(ctx context.Context) error {
+				_, e := w.dd.BroadcastDKG(ctx, msg.(*pdkg.DKGPacket))
+				return e
+			})
 		case "ProbeHttpTable":
 			w.dd.handler.RemoveBeaconHandler("00-no-such-chain")
 		default: // HTTP
@@ -687,6 +836,10 @@ func (w *vdmWorld) vdmeDirect(c vdmeCall, d time.Duration) vdmeResult {
 			if rec.Code != http.StatusOK {
 				err = fmt.Errorf("http %d", rec.Code)
 			}
+		}
+		if stage == "handler" {
+			out.res, out.stage = "panic", "handler"
+			return
 		}
 		out.res, out.err = vdmeClassify(err)
 	})
@@ -945,7 +1098,7 @@ func (w *vdmWorld) vdmeRunProbesD(c vdmeCall, d time.Duration) []map[string]stri
 	out := []map[string]string{}
 	for _, p := range vdmeProbes(c) {
 		r := w.vdmeDirect(p, d)
-		out = append(out, map[string]string{"name": p.Name, "ep": p.EP, "id": p.ID, "hash": p.Hash, "gm": p.GM, "body": p.Body, "res": r.res})
+		out = append(out, map[string]string{"name": p.Name, "ep": p.EP, "id": p.ID, "hash": p.Hash, "gm": p.GM, "body": p.Body, "res": r.res, "on": r.on, "onKind": vdmeOnKind(r)})
 	}
 	return out
 }
@@ -1091,9 +1244,23 @@ func (l *vdmeLane) fresh() bool {
 	return true
 }
 
+func vdmeVerOf(c vdmeCall) string {
+	if c.Ver == "" {
+		return "none"
+	}
+	return c.Ver
+}
+
+func vdmeStageOf(r vdmeResult) string {
+	if r.stage == "" {
+		return "-"
+	}
+	return r.stage
+}
+
 func (l *vdmeLane) emit(c vdmeCall, via string, r vdmeResult, probes []map[string]string, free [][]any, loop, alive bool) {
-	e := vlib.E{"ns": l.ns, "ep": c.EP, "id": c.ID, "hash": c.Hash, "gm": c.GM, "body": c.Body, "shape": c.Name, "via": via,
-		"res": r.res, "on": r.on, "onKind": vdmeOnKind(r), "code": r.code, "slow": r.slow, "probes": probes, "free": free, "loop": loop, "alive": alive}
+	e := vlib.E{"ns": l.ns, "ep": c.EP, "id": c.ID, "hash": c.Hash, "gm": c.GM, "body": c.Body, "ver": vdmeVerOf(c), "shape": c.Name, "via": via,
+		"res": r.res, "on": r.on, "onKind": vdmeOnKind(r), "stage": vdmeStageOf(r), "code": r.code, "slow": r.slow, "probes": probes, "free": free, "loop": loop, "alive": alive}
 	if r.err != "" {
 		e["err"] = r.err
 	}
@@ -1111,7 +1278,7 @@ func (l *vdmeLane) run(c vdmeCall) {
 	l.calls++
 	w := l.w
 	begin := func(via string) {
-		l.tr.Emit("Begin", vlib.E{"ns": l.ns, "ep": c.EP, "id": c.ID, "hash": c.Hash, "gm": c.GM, "body": c.Body, "shape": c.Name, "via": via})
+		l.tr.Emit("Begin", vlib.E{"ns": l.ns, "ep": c.EP, "id": c.ID, "hash": c.Hash, "gm": c.GM, "body": c.Body, "ver": vdmeVerOf(c), "shape": c.Name, "via": via})
 	}
 	// (a) directly on the service objects
 	begin("direct")
@@ -1119,13 +1286,19 @@ func (l *vdmeLane) run(c vdmeCall) {
 	probes := w.vdmeRunProbes(c)
 	if r.res == "blocked" {
 		l.stuck[cls]++
-		l.emit(c, "direct", r, probes, [][]any{}, true, true)
+		// is the daemon's own write access to its locks still possible with the handler parked?
+		l.emit(c, "direct", r, probes, w.vdmeFree(), true, true)
 		l.fresh() // the wedged daemon is abandoned
 		return
 	}
 	free := w.vdmeFree()
 	loop := w.vdmeLoopAlive()
 	l.emit(c, "direct", r, probes, free, loop, true)
+	if r.res == "panic" && r.stage == "interceptor" {
+		// nothing recovers this panic on the real listener: sending the request there would kill this process
+		// (and with it the observations of the other lanes); the direct observation is the evidence
+		return
+	}
 	if vdmeDirty(probes, free, loop) {
 		// whatever the request left behind must not be blamed on the next one
 		if !l.fresh() {
@@ -1143,7 +1316,8 @@ func (l *vdmeLane) run(c vdmeCall) {
 	probes2 := w.vdmeRunProbes(c)
 	if r2.res == "blocked" {
 		l.stuck[cls]++
-		l.emit(c, "net", r2, probes2, [][]any{}, true, alive)
+		r2.on = vdmeServerParked(vdmeDump())
+		l.emit(c, "net", r2, probes2, w.vdmeFree(), true, alive)
 		l.fresh()
 		return
 	}
@@ -1312,7 +1486,7 @@ func vdmeConcScenario(t *testing.T, tr *vdmeTrace, sch *crypto.Scheme, ns string
 	if r1.res == "blocked" || !t2done {
 		w.abandoned = true
 	}
-	e := vlib.E{"ns": ns, "ep": c.EP, "id": c.ID, "hash": c.Hash, "gm": c.GM, "body": c.Body, "shape": c.Name, "via": "direct",
+	e := vlib.E{"ns": ns, "ep": c.EP, "id": c.ID, "hash": c.Hash, "gm": c.GM, "body": c.Body, "ver": vdmeVerOf(c), "stage": vdmeStageOf(r1), "shape": c.Name, "via": "direct",
 		"event": "DKGComplete", "x": "default", "order": order, "parked1": parked1, "parked2": parked2,
 		"res": r1.res, "on": r1.on, "onKind": vdmeOnKind(r1), "t2": t2, "t2on": t2on, "probes": probes}
 	if r1.err != "" {
@@ -1347,7 +1521,7 @@ func TestVerifEndpointsConc(t *testing.T) {
 	seen := map[string]bool{}
 	var classes []vdmeCall
 	for _, c := range vdmeShapes(false) {
-		k := c.EP + "|" + c.ID + "|" + c.Hash + "|" + c.GM + "|" + c.Body
+		k := c.EP + "|" + c.ID + "|" + c.Hash + "|" + c.GM + "|" + c.Body + "|" + c.Ver
 		if seen[k] || c.Tick {
 			continue
 		}
